@@ -648,7 +648,7 @@ def run(ctx):
             ctx.sample({"program": prog})
         dfs_schedules(prog, bound=ctx.n(2, 3), limit=per_prog,
                       on_run=lambda r, pre, prog=prog: judge(r, pre, prog, "dfs"))
-    nrand = ctx.n(300, 5000) * boost
+    nrand = ctx.n(300, 4200) * boost
     for i in range(nrand):
         if boost > 1 and nviol[0]:
             break          # enlarged search after a broken obligation: a failing input has been found
